@@ -70,18 +70,6 @@ theorem key_tail (n : LName) : K (asName n.tail) = (K (asName n)).dropLast := by
   | nil => rfl
   | cons l ls => simp [K, canonKey, asName]
 
-/-- a link that sorts its next name before its owner is the last link: next = apex -/
-theorem wrap_of_next_lt {Z : ZoneView} {n : Nsec} (hl : LinkOf Z n) (h : K n.next < K n.owner) :
-    K n.next = Z.apex := by
-  apply Classical.byContradiction
-  intro hne
-  exact lt_irrefl _ (lt_trans (link_owner_lt_next hl hne).1 h)
-
-theorem lt_of_le_of_ne' {a b : Key} (h : a ≤ b) (hne : a ≠ b) : a < b := by
-  apply Classical.byContradiction
-  intro hn
-  exact hne (List.le_antisymm h (not_lt.1 hn))
-
 theorem zoneOf_key {o n : LName} (h : AuthZone.zoneOf o n = true) : K (asName o) <+: K (asName n) := by
   unfold AuthZone.zoneOf at h
   obtain ⟨t, rfl⟩ := List.isSuffixOf_iff_suffix.1 h
